@@ -8,6 +8,17 @@ from twisted.python.failure import Failure
 from twisted.internet import defer
 
 
+def diffwin(a, b, w=6):
+    """the two lists around their first difference (they can be thousands long)"""
+    if len(a) <= 40 and len(b) <= 40:
+        return "%r vs %r" % (a, b)
+    k = 0
+    while k < len(a) and k < len(b) and a[k] == b[k]:
+        k += 1
+    lo = max(0, k - w)
+    return "lengths %d / %d, equal up to index %d, then ...%r vs ...%r" % (len(a), len(b), k, a[lo:k + w], b[lo:k + w])
+
+
 class Boom(Exception):
     def __init__(self, code):
         Exception.__init__(self, "boom %r" % (code,))
@@ -95,8 +106,8 @@ class EvRun:
         self.trace.append([2, i])
         nxt = len(self.rans)
         if nxt >= len(self.subs) or self.subs[nxt] != i:
-            self.bad("oracle/order", "callable %d started, but the next one in submission order is %r (submitted %r, started %r)"
-                     % (i, self.subs[nxt] if nxt < len(self.subs) else None, self.subs, self.rans))
+            self.bad("oracle/order", "callable %d started, but the next one in submission order is %r (submitted vs started: %s)"
+                     % (i, self.subs[nxt] if nxt < len(self.subs) else None, diffwin(self.subs, self.rans + [i])))
         self.rans.append(i)
         if self.sub_turn.get(i) is not None and self.sub_turn[i] == self.turn_no:
             self.bad("oracle/reentrant-ran-in-same-turn", "callable %d was submitted and run in the same turn" % i)
@@ -207,7 +218,7 @@ class EvRun:
         else:
             self.bad("oracle/no-quiescence", "the queue did not drain in %d turns" % limit)
         if self.rans != self.subs and not any(s == "oracle/order" for s, _ in self.viol):
-            self.bad("oracle/callable-lost", "after draining: submitted %r, run %r" % (self.subs, self.rans))
+            self.bad("oracle/callable-lost", "after draining: submitted vs run: %s" % diffwin(self.subs, self.rans))
         for fid in self.flush_req:
             n = self.flush_fired.get(fid, 0)
             if n != 1:
@@ -328,6 +339,15 @@ class PrRun:
         if beh[0] == "raise":
             self.returned[mid] = ("fail", beh[1])
             raise (BoomBase if beh[1] % 3 == 0 else Boom)(beh[1])
+        if beh[0] == "sendret":          # the method sends another message (re-entrantly), then returns a value
+            q, m2, v = beh[1], beh[2], beh[3]
+            if q < len(self.P) and self.P[q] is not None:
+                self.msg[m2] = (q, ["ret", 0], None)
+                pm.sendOnly(self.P[q]).m(m2, ["ret", 0])
+                self.trace.append([1, q, m2])
+                self.sent.setdefault(q, []).append(m2)
+            self.returned[mid] = ("val", v)
+            return Target(self, v)
         q = beh[1]
         if q < len(self.P) and self.P[q] is not None:
             self.returned[mid] = ("prom", q)
@@ -508,9 +528,9 @@ class PrRun:
             sent, got = self.sent.get(i, []), self.deliv.get(i, [])
             if e is not None and e[0] == 0:
                 if got != sent:
-                    self.bad("oracle/delivery-order", "messages sent to promise %d: %r, delivered to its resolution: %r" % (i, sent, got))
+                    self.bad("oracle/delivery-order", "messages sent to promise %d vs delivered to its resolution: %s" % (i, diffwin(sent, got)))
             elif got:
-                self.bad("oracle/delivered-without-target", "promise %d did not resolve to a value, yet %r were delivered" % (i, got))
+                self.bad("oracle/delivered-without-target", "promise %d did not resolve to a value, yet %r were delivered" % (i, got[:20]))
             for w, kind in self.watch.get(i, []):
                 seen = self.seen.get(w, [])
                 want = []
@@ -556,6 +576,8 @@ def filter_model_trace(flat, kinds):
 
 
 def coq_beh(b):
+    if b[0] == "sendret":
+        return "BSendRet %d %d %d" % (b[1], b[2], b[3])
     return {"ret": "BRet %d", "raise": "BRaise %d", "retp": "BRetP %d"}[b[0]] % b[1]
 
 
